@@ -11,7 +11,6 @@ Init == cell \in Plan(Check)
 Next == UNCHANGED cell
 BestObs == [e |-> -2000, cls |-> 0, cj |-> 0, re |-> 0]
 WorstObs == [e |-> 2000, cls |-> 15, cj |-> 15, re |-> 15]
-NearObs(req) == [e |-> req, cls |-> 1, cj |-> 1, re |-> 1]
 CellDecidable == /\ Verdict(Check, cell, BestObs) = "ok"
                  /\ Verdict(Check, cell, WorstObs) \notin {"ok", "unresolved"}
 Post == /\ JsonSerialize(IOEnv.EKL_PLAN_FILE, SetToSeq(Plan(Check)))
